@@ -196,7 +196,7 @@ def run(ctx):
     rshapes = [mkcfg(3, 3, 2, 2), mkcfg(3, 2, 2, 4), mkcfg(2, 3, 4, 2), mkcfg(4, 4, 1, 1), mkcfg(4, 2, 1, 2),
                mkcfg(3, 3, 2, 2, 0.25), mkcfg(3, 6, 4, 1, 0.25), mkcfg(6, 3, 1, 2, 0.25)]
     dflt = {"cs": 100, "ls": 50, "cx": 1, "cy": 1, "margin": 0.0, "mx": 0, "my": 0, "res": None}
-    per = 6 if quick else 80
+    per = 6 if quick else 250
     for cfgd in rshapes:
         for r in range(4):
             jobs.append(("rnd", (cfgd, per, idn, ctx.seed * 7 + idn)))
